@@ -173,7 +173,27 @@ func runC24(c *Ctx) {
 					}
 				}
 			}
-			isDisc := func(in ssa.Instruction) bool { cc := callOf(in); return cc != nil && methodName(cc) == "Disconnect" }
+			isDisc := func(in ssa.Instruction) bool {
+				cc := callOf(in)
+				if cc == nil {
+					return false
+				}
+				if methodName(cc) == "Disconnect" {
+					return true
+				}
+				// a helper of the module every path of which disconnects (disconnectOverflow(player, …))
+				g := moduleHelperWithBody(cc)
+				if g == nil || len(g.Blocks) == 0 || len(g.Blocks[0].Instrs) == 0 {
+					return false
+				}
+				isD := func(x ssa.Instruction) bool { c2 := callOf(x); return c2 != nil && methodName(c2) == "Disconnect" }
+				first := g.Blocks[0].Instrs[0]
+				if isD(first) {
+					return true
+				}
+				miss, _ := MayReachExitWithout(first, isD)
+				return !miss
+			}
 			isLatch := func(in ssa.Instruction) bool {
 				st, ok := in.(*ssa.Store)
 				if !ok {
